@@ -9,11 +9,11 @@ PROP = dict(
                        "C23_prelude_branch_option_some", "C23_prelude_branch_option_none", "C23_prelude_from_residual_option",
                        "C23_prelude_branch_result_ok", "C23_prelude_branch_result_err", "C23_prelude_from_residual_result",
                        "C23_prelude_unwrap_option_some", "C23_prelude_unwrap_option_none",
-                       "C23_prelude_unwrap_result_ok", "C23_prelude_unwrap_result_err",
+                       "C23_prelude_unwrap_result_ok", "C23_prelude_unwrap_result_err", "C23_panic_instr",
                        "C23_try_accepted_iff", "C23_try_residual_in_family", "C23_try_plain_has_no_meaning"],
     harness_bin="c23",
     mismatch_is_violation=True,
-    rule="(0) 112 mixed-Try programs (harness/src/bg9cov.rs, Rust oracle from error_handling.md: `?` is accepted exactly when operand and enclosing return type are both options, or both results with the same error type): 8 operands (option<int> some/none, option<void>, option<string>, result<int,string> ok/err, result<void,int> err, result<string,int> ok) x 7 return types (option<int>, option<string>, result<int,string>, result<string,string>, result<int,int>, int, void) x 2 positions (statement of a function; inside a tuple operand in an annotated lambda): rejected combinations must be diagnostics (e.g. TriedExpressionAndRetTypeMustMatch), accepted ones must print `after` + the function result when the operand is present and the propagated none / err(e) otherwise; the checker's accept/reject verdict of each of the 112 programs is also compared with the Lean model `tryAccepted` on the two type families (`trycompat <operand> <ret>`); (1) 56 template programs (4 of them: functions and a lambda with void-typed parameters - explicit `u: void` first/middle/last/several and a type parameter instantiated with nil and with values - `?` success and failure, `!`, explicit return, implicit result, caller sentinel locals, calls inside operands); the other 52: `?`/`!` at statement, operand, argument, nested-call, loop+tuple and void-payload position x "
+    rule="(0) 112 mixed-Try programs (harness/src/bg9cov.rs, Rust oracle from error_handling.md: `?` is accepted exactly when operand and enclosing return type are both options, or both results with the same error type): 8 operands (option<int> some/none, option<void>, option<string>, result<int,string> ok/err, result<void,int> err, result<string,int> ok) x 7 return types (option<int>, option<string>, result<int,string>, result<string,string>, result<int,int>, int, void) x 2 positions (statement of a function; inside a tuple operand in an annotated lambda): rejected combinations must be diagnostics (e.g. TriedExpressionAndRetTypeMustMatch), accepted ones must print `after` + the function result when the operand is present and the propagated none / err(e) otherwise; the checker's accept/reject verdict of each of the 112 programs is also compared with the Lean model `tryAccepted` on the two type families (`trycompat <operand> <ret>`); (1) 52 template programs (4 of them: functions and a lambda with void-typed parameters - explicit `u: void` first/middle/last/several and a type parameter instantiated with nil and with values - `?` success and failure, `!`, explicit return, implicit result, caller sentinel locals, calls inside operands); the other 48 (12 shapes x 4 inputs): `?`/`!` at statement, operand, argument, nested-call, loop+tuple and void-payload position x "
          "option/result x inputs {-3,0,2,7}; expected trace of executed statements computed in the harness from the property's own "
          "words (spec_fail on deviation); (1b) 16 task programs: main reaches a failing `!` (none / err / inside a called function) or, for contrast, goes on after a handled failing `?`, while one or two tasks print in bounded and unbounded loops; run under budgets {100},{1000},{7},{1} with the host serviced as abra_cli does; required: the outcome (panic error / done), exactly the expected main lines, termination within the step bound, and at most tasks*(60/budget+2) task lines after main's last line; (2) the real prelude functions Try.branch / Try.from_residual / Unwrap.unwrap called "
          "directly on 22 values vs the transliteration the theorems are about; (3) quick 160 / thorough 4000 generated F2/F3 programs "
